@@ -40,23 +40,60 @@ def judge(run, cases, rows):
                         theorem="correspondence Arb.Model ~ internal/k8s/configuration.go (GetResources)", found_input=False)
 
 
+def render_term(c):
+    """per step: for every active master, server name -> (path, minion) locations written by the real generator"""
+    S = C.cq_str
+    steps = []
+    for st in c["ctl"]:
+        ms = []
+        for m in st.get("render") or []:
+            for host, locs in sorted(m["locs"].items()):
+                ms.append("(%s, %s)" % (S(host), C.cq_list(["(%s, %s)" % (S(l["path"]), S(l["minion"])) for l in locs])))
+        steps.append(C.cq_list(ms))
+    return C.cq_list(steps)
+
+
+def judge_render(run, cases, rows):
+    for c in cases:
+        if c.get("error") or c["id"] not in rows:
+            continue
+        r = rows[c["id"]]
+        run.cov["traces_validated_against_impl"] += 1
+        run.cov["masters_rendered"] = run.cov.get("masters_rendered", 0) + r[2]
+        if r[1] != 0:
+            st = c["ctl"][r[1] - 1]
+            run.failing({"kind": "rendered-locations-not-as-declared"}, [c],
+                        "C04: after step %d of case %d the locations the real generateNginxCfgForMergeableIngresses writes for a master are not exactly the paths each minion is the "
+                        "oldest claimant of (a path served by two minions, by the wrong one, or not at all): %s" % (r[1], c["id"], json.dumps(st.get("render"))[:600]),
+                        theorem="Arb.Cases.render_ok")
+
+
 def check(run):
     n = 250 if run.tier == "quick" else 5000
     run.proof_obligations()
-    cases = arb.generate(run, n)
+    cases = arb.generate(run, n, ctl=True)
     rows = arb.evaluate(run, cases, fn="c04_case")
     judge(run, cases, rows)
+    part = [c for c in cases if not c.get("error") and any(st.get("render") for st in c["ctl"])][: (120 if run.tier == "quick" else 2500)]
+    judge_render(run, part, arb.evaluate(run, part, fn="c04_render_case", extra=render_term, tag="arbrender"))
+    run.cov["render_level_histories"] = len(part)
     for c in [x for x in cases if has_composition(x)][:2]:
         run.sample(arb.summarize_case(c))
     run.cov["rule"] = ("histories of the arb harness (see C01): masters and minions sharing paths, several namespaces, routes referenced by bare name and namespace/name, prefix / exact / "
                        "regex route paths, parent host loss, challenge Ingresses; after every event the composition in GetResources() is compared with the declarative composition of the "
-                       "object set the history determines; non-trivial = some resource had minions or routes attached at some step")
+                       "object set the history determines; non-trivial = some resource had minions or routes attached at some step; rendering projection: after every event every active master "
+                       "is rendered through the real createMergeableIngresses + generateNginxCfgForMergeableIngresses and its locations (path, minion) are compared with the declarative ones")
     run.cov["trusted_base"] = arb.TRUSTED
     run.assumptions += ["the full VirtualServerRoute validator is an oracle; the per-reference part (host, subroute paths) is modelled"]
 
 
 def replay(run, path):
-    cases = arb.replay_cases(run, path)
+    cases = arb.replay_cases(run, path, ctl=True)
+    rr = arb.evaluate(run, cases, fn="c04_render_case", extra=render_term, tag="arbrender")
+    for c in cases:
+        if not c.get("error") and c["id"] in rr:
+            print("replay case %d (rendering projection): first step where the rendered locations differ from the declared ones=%d" % (c["id"], rr[c["id"]][1]))
+    judge_render(run, cases, rr)
     rows = arb.evaluate(run, cases, fn="c04_case")
     for c in cases:
         if not c.get("error"):
